@@ -34,7 +34,18 @@ def main():
     if not os.path.abspath(nasim.__file__).startswith(os.path.abspath(want)):
         print(f"HARNESS: nasim imported from {nasim.__file__}, expected {want}")
         return 2
-    os.environ.setdefault("HYPOTHESIS_STORAGE_DIRECTORY", tempfile.mkdtemp(prefix="nvf_hyp_"))
+    # one scratch directory per run; every shard / worker creates its own below it; removed at the end
+    base = tempfile.mkdtemp(prefix="nvf_run_")
+    os.environ["NVF_TMP"] = base
+    os.environ["HYPOTHESIS_STORAGE_DIRECTORY"] = os.path.join(base, "hypothesis")
+    try:
+        return _run(args, fn)
+    finally:
+        import shutil
+        shutil.rmtree(base, ignore_errors=True)
+
+
+def _run(args, fn):
     if args.pid not in ("C14", "C15", "C18"):
         from . import draws
         try:
